@@ -10,6 +10,17 @@ COMMON_NOTE = ("Trusted base: pyvc engine (AST transform T1-T3 of the real sourc
                "lift to C), A3 (integer powers), A4 (path forking via z3), A5 (numpy shim contracts, listed per run in evidence.trusted_base). ")
 
 CLAIMED = {
+    "C39": dict(
+        category="proof",
+        text=("The real mutators of eko.io (EKO.__setitem__, load_recipes, update, xgrid setter, dump to the default archive, Inventory.__setitem__ of all five inventories) and EKO.close run "
+              "unmodified over a ghost file system that logs every disk-changing operation, from the states open/read-only, closed after a read-only session and closed after a regular close: "
+              "every store attempt raises ReadOnlyOperator / ClosedOperator (OutputError) with NO disk operation before the refusal and leaves the access state unchanged (frame), which extends "
+              "the verdict to every sequence of attempts; reads are served when open and refused when closed; closing a read-only EKO never touches the archive path; after a regular close "
+              "the archive stays exactly what close() wrote."),
+        note=COMMON_NOTE + "Relative to the assumed file-system call contracts of contracts/ghostfs.py; the bytes of a real tar file are only compared by the native replay oracle.",
+        technique="contract-based verification: pre-state enumeration + frame conditions of the real mutators over a ghost file system with assumed call contracts",
+        design_ref="DESIGN.md section 2, C39",
+    ),
     "C38": dict(
         category="proof",
         text=("Exceptional postconditions of the real EKO.close / dump / __exit__, Builder.__exit__ / __post_init__ / build, Inventory.__setitem__ and InternalPaths.bootstrap, run unmodified over a "
